@@ -238,24 +238,25 @@ theorem error_surfaces_partial {c : Cfg} {s : St} {l : List Nat} (hc : CfgOK c) 
     rcases hE.1 t ht hne with hp | hp <;> rw [hp] at this <;> exact this
   exact ⟨hst, h0.doneOk hst⟩
 
-/-! ### Liveness: what is proved, and what is only checked
+/-! ### Liveness
 
-FULL STATEMENT (NOT proved — named here so that the gap is visible):
+FULL STATEMENT (PROVED further down, after `runChoices`, with an explicit bound — `quiescent_termination`,
+`quiescent_termination_bounded`, `quiescent_termination_init`):
 
     theorem quiescent_termination (hc : CfgOK c) (hpd : PdOK c) (h : Reachable c s) :
         ∃ fuel, (runChoices c fuel s []).pc = .done
 
 i.e. from every reachable state, if the environment completes every parked batch and every thread is scheduled by the
 drain rule (`pickLast`: completions, then callbacks, then the caller), the caller's call returns or raises: no
-deadlock, no lost wake-up, no spinning retrieval loop.  Proved below: `no_deadlock` (some action is always enabled until
-the caller is done; a blocked caller is blocked by a RUNNABLE lock owner), `lock_holder_runnable`, `callback_progress`
-(every step of a callback thread strictly decreases a rank ≤ 8: a callback terminates within 8 of its own steps and
-holds the lock for at most 3), `quiescent_termination_partial` (their conjunction).  Missing: the measure for the
-caller's retrieval loop, which needs one more invariant ("`_iterating` or `n_completed < n_dispatched` ⇒ `_aborting` or
-some live callback / parked batch" — that invariant IS now proved: `no_lost_wakeup`, `quiet_exit` below; what is still
-missing is only the bookkeeping of the step count).  Checked instead: every forced-schedule run of the harness ends with the drain rule
-on the REAL code and must terminate (oracle signatures `hang`, `deadlock`); the model agrees step by step; and the
-examples at the end of this file evaluate the drain on the model. -/
+deadlock, no lost wake-up, no spinning retrieval loop.  Ingredients, proved first: `no_deadlock` (some action is always
+enabled until the caller is done; a blocked caller is blocked by a RUNNABLE lock owner), `lock_holder_runnable`,
+`callback_progress` (every step of a callback thread strictly decreases a rank ≤ 8: a callback terminates within 8 of
+its own steps and holds the lock for at most 3), `no_lost_wakeup` / `quiet_exit` (third invariant),
+`quiescent_termination_partial` (the conjunction that was all that was proved before).  The full theorem adds a fourth
+invariant (`reachable_inv4`: a batch waiting for its `submit` is pointed to by the thread parked at that `submit`) and
+the step-count measure `drainBound` (`drain_step_decreases`: EVERY drain step from a reachable state strictly decreases
+it).  Termination is additionally CHECKED on the real code: every forced-schedule run of the harness ends with the drain
+rule and must terminate (oracle signatures `hang`, `deadlock`); the model agrees step by step. -/
 
 /-- NO DEADLOCK. In every reachable state in which the caller has not finished, some thread can take a step: the
 caller, or — when the caller is parked at a lock acquisition and the lock is taken — the callback thread that owns the
@@ -317,8 +318,8 @@ theorem quiet_exit {c : Cfg} {s : St} (hc : CfgOK c) (hpd : PdOK c) (h : Reachab
     · have : ¬ s.nCompleted < s.nDispTasks := fun hh => key (Or.inr hh)
       omega
 
-/-- LIVENESS, the proved part: until the caller finishes there is always an enabled action, the lock owner is
-runnable, and callbacks are rank-decreasing. (The full `quiescent_termination` is stated above.) -/
+/-- LIVENESS, the schedule-independent part: until the caller finishes there is always an enabled action, the lock owner
+is runnable, and callbacks are rank-decreasing. (The full `quiescent_termination` is proved below.) -/
 theorem quiescent_termination_partial {c : Cfg} {s : St} (h : Reachable c s) :
     (s.pc ≠ .done → enabledActs s ≠ []) ∧
     (∀ i, cbEnabled s i = true → (getTrk (step c s (.thread (i + 1))) i).pc.rank < (getTrk s i).pc.rank) := by
@@ -373,6 +374,108 @@ theorem runChoices_reachable (c : Cfg) : ∀ (fuel : Nat) (s : St) (chs : List N
       split
       · exact ih _ _ (hstep _)
       · exact h
+
+theorem reachable_step {c : Cfg} {s : St} (h : Reachable c s) (a : Act) : Reachable c (step c s a) := by
+  obtain ⟨sched, rfl⟩ := h
+  refine ⟨sched ++ [a], ?_⟩
+  have : ∀ (l : List Act) (s0 : St), run c s0 (l ++ [a]) = step c (run c s0 l) a := by
+    intro l
+    induction l with
+    | nil => intro s0; rfl
+    | cons b r ihr => intro s0; exact ihr (step c s0 b)
+  exact (this sched init).symm
+
+/-! ### Termination under the drain schedule (`quiescent_termination`, with an explicit bound) -/
+
+/-- The fourth invariant (`Inv4`: the caller is never parked at the marker `dIn`; every batch that waits for its
+`backend.submit` is pointed to by the thread parked at that `submit`) holds in every reachable state. -/
+theorem reachable_inv4 {c : Cfg} {s : St} (h : Reachable c s) : Inv4 s := by
+  obtain ⟨sched, rfl⟩ := h
+  exact run_inv4 sched (inv_init c) inv4_init
+
+/-- The termination measure of the drain schedule, a computable function of the configuration and the state:
+`1300 * W + 100 * P + 100 * L + R` with `W` = items the input iterable can still produce + items in the look-ahead queue
+(+ 1 while the iterable has not signalled its end), `P` = Σ over the trackers of the stages the batch still has to go
+through (`idle` 10, `parked` 9, `acqA` 8, …, `relC` 1, finished 0), `L` = trackers the caller still has to pop / read,
+`R` = rank (≤ 70) of the caller's program point (`JoblibProofs/Lemmas/ParallelLock/TermMeasure.lean`). -/
+def drainBound (c : Cfg) (s : St) : Nat := M c s
+
+/-- The bound for a whole call on a fresh object: `1300 * (number of items the input produces + 1) + 370`. -/
+def drainBound0 (c : Cfg) : Nat := 1300 * (stopAt c + 1) + 370
+
+theorem drainBound_init (c : Cfg) : drainBound c init = drainBound0 c := M_init c
+
+/-- DRAIN PROGRESS. From every reachable state in which the caller has not finished the drain rule (`pickLast`:
+environment completions first, then the highest-numbered enabled callback thread, then the caller) picks an action, and
+that action strictly decreases the measure: a completion and every callback step decrease `P` (or register a tracker,
+which decreases `W`); the caller runs only when nothing else is enabled, and then — outside a lock-protected segment —
+no batch is live any more (`Inv4`, `no_lost_wakeup`), so the loop condition of the retrieval loop is false or an error is
+flagged, and each of its steps decreases `W`, `P`, `L` or the rank of its program point. -/
+theorem drain_step_decreases {c : Cfg} {s : St} (hc : CfgOK c) (hpd : PdOK c) (h : Reachable c s)
+    (hnd : s.pc ≠ .done) : ∃ a, pickLast s = some a ∧ drainBound c (step c s a) < drainBound c s := by
+  obtain ⟨a, ha, hd⟩ := drain_dec (reachable_inv h) (reachable_inv3 hc hpd h) (reachable_inv4 h) hnd
+  exact ⟨a, ha, hd.lt⟩
+
+/-- Once the caller has finished it stays finished (the remaining callbacks may still run). -/
+theorem done_stable (c : Cfg) : ∀ (fuel : Nat) (s : St) (chs : List Nat), s.pc = .done →
+    (runChoices c fuel s chs).pc = .done := by
+  intro fuel
+  induction fuel with
+  | zero => intro s chs h; exact h
+  | succ f ih =>
+    intro s chs h
+    cases chs with
+    | nil =>
+      simp only [runChoices]
+      split
+      · exact ih _ _ (step_pc_done _ h)
+      · exact h
+    | cons ch rest =>
+      simp only [runChoices]
+      split
+      · exact ih _ _ (step_pc_done _ h)
+      · exact h
+
+/-- QUIESCENT TERMINATION, with the explicit bound. From EVERY reachable state, under the drain rule, the caller's call
+has finished (returned or raised) after at most `drainBound c s` steps — and stays finished with any larger fuel. No
+deadlock, no lost wake-up, no spinning retrieval loop; every configuration of the model's domain, any number of tasks
+and callback threads. -/
+theorem quiescent_termination_bounded {c : Cfg} (hc : CfgOK c) (hpd : PdOK c) :
+    ∀ (fuel : Nat) (s : St), Reachable c s → drainBound c s ≤ fuel → (runChoices c fuel s []).pc = .done := by
+  intro fuel
+  induction fuel with
+  | zero =>
+    intro s _ hb
+    have : L s = 0 := by unfold drainBound M at hb; omega
+    exact L_eq_zero this
+  | succ f ih =>
+    intro s h hb
+    by_cases hnd : s.pc = .done
+    · exact done_stable c _ s [] hnd
+    · obtain ⟨a, ha, hlt⟩ := drain_step_decreases hc hpd h hnd
+      simp only [runChoices, ha]
+      exact ih _ (reachable_step h a) (by omega)
+
+/-- QUIESCENT TERMINATION (the full statement): from every reachable state, if the environment completes every parked
+batch and every thread is scheduled by the drain rule, the caller's call returns or raises. -/
+theorem quiescent_termination {c : Cfg} {s : St} (hc : CfgOK c) (hpd : PdOK c) (h : Reachable c s) :
+    ∃ fuel, (runChoices c fuel s []).pc = .done :=
+  ⟨drainBound c s, quiescent_termination_bounded hc hpd _ s h (Nat.le_refl _)⟩
+
+/-- … within a number of steps bounded by a computable function of the configuration and the state. -/
+theorem quiescent_termination_bound {c : Cfg} {s : St} (hc : CfgOK c) (hpd : PdOK c) (h : Reachable c s) :
+    ∃ fuel, fuel ≤ drainBound c s ∧ (runChoices c fuel s []).pc = .done :=
+  ⟨drainBound c s, Nat.le_refl _, quiescent_termination_bounded hc hpd _ s h (Nat.le_refl _)⟩
+
+/-- A whole call on a fresh object scheduled by the drain rule finishes within `1300 * (items + 1) + 370` steps. -/
+theorem quiescent_termination_init {c : Cfg} (hc : CfgOK c) (hpd : PdOK c) :
+    (runChoices c (drainBound0 c) init []).pc = .done :=
+  quiescent_termination_bounded hc hpd _ init ⟨[], rfl⟩ (Nat.le_of_eq (drainBound_init c))
+
+/-- … and after ANY forced prefix of choices: the drain that follows a schedule `chs` (the harness rule) terminates. -/
+theorem quiescent_termination_after {c : Cfg} (hc : CfgOK c) (hpd : PdOK c) (k : Nat) (chs : List Nat) :
+    ∃ fuel, (runChoices c fuel (runChoices c k init chs) []).pc = .done :=
+  quiescent_termination hc hpd (runChoices_reachable c k init chs ⟨[], rfl⟩)
 
 /-- The pinned code (`recheck := false`), 7 tasks, the input iterable raises at position 2. -/
 def cfgX : Cfg :=
@@ -457,8 +560,31 @@ example : (runChoices cfgA 40 init (List.replicate 40 0)).aborting = false ∧
     (runChoices cfgA 40 init (List.replicate 40 0)).pc.postLoop = true := by decide
 -- `quiet_exit`: after the drain nothing is live
 example : ∀ t ∈ (runChoices cfgA 400 init []).trk, t.pc.live = false := by decide
--- the drain rule terminates on these instances (the full statement is `quiescent_termination`, not proved)
+-- the drain rule terminates on these instances (in general: `quiescent_termination`)
 example : (runChoices cfgB 600 init schedB).pc = .done ∧ enabledActs (runChoices cfgB 600 init schedB) = [] := by decide
 example : (runChoices cfgX 200 init schedX).pc = .done := by decide
+
+-- `quiescent_termination_init`: a whole call under the drain rule, within the computed bound
+example : (runChoices cfgA (drainBound0 cfgA) init []).pc = .done :=
+  quiescent_termination_init cfgA_ok.1 cfgA_ok.2.1
+example : drainBound0 cfgA = 5570 ∧ drainBound cfgA (run cfgA init schedA2) = 4355 := by decide
+-- the bound is not vacuous: the call really takes 52 drain steps (not done after 51)
+example : (runChoices cfgA 51 init []).pc ≠ .done ∧ (runChoices cfgA 52 init []).pc = .done := by decide
+-- `drain_step_decreases` where the drain rule picks the caller inside the retrieval loop (`r:_iterating`): nothing else
+-- is enabled, no batch is live, the loop condition is false
+example : (runChoices cfgA 43 init []).pc = .wtIter ∧ pickLast (runChoices cfgA 43 init []) = some (.thread 0) ∧
+    drainBound cfgA (runChoices cfgA 44 init []) < drainBound cfgA (runChoices cfgA 43 init []) := by decide
+-- … and where it picks a callback thread (parked at `submit`, owning the lock) while the caller is blocked
+example : callerEnabled (run cfgA init schedA2) = false ∧ pickLast (run cfgA init schedA2) = some (.thread 1) ∧
+    drainBound cfgA (step cfgA (run cfgA init schedA2) (.thread 1)) < drainBound cfgA (run cfgA init schedA2) := by
+  decide
+-- `quiescent_termination` from the middle of a racy interleaving with a failing task (state after 60 steps of `schedB`,
+-- `_aborting` set, callbacks still running): the drain finishes, here after 9 more steps, bound 2032
+example : drainBound cfgB (runChoices cfgB 60 init schedB) = 2032 ∧
+    (runChoices cfgB 9 (runChoices cfgB 60 init schedB) []).pc = .done := by decide
+-- `reachable_inv4`: a reachable state with a batch waiting for its `submit`, pointed to by the caller
+example : (getTrk (run cfgA init schedA1) 0).pc = .idle ∧ (getTrk (run cfgA init schedA1) 0).items = [0] ∧
+    (run cfgA init schedA1).pc = .dSubmit .first 0 := by decide
+
 
 end M1L
